@@ -831,7 +831,7 @@ impl CanonicalizeContext {
 					// people tend to set them in a non-italic font and software makes that 'mtext'
 					CanonicalizeContext::make_roman_numeral(mathml);
 				}
-				if first_char == '-' || first_char == '\u{2212}' {
+				if (first_char == '-' || first_char == '\u{2212}') && chars.next().is_some() {	// a lone sign is left alone -- no empty 'mn'
 					let doc = mathml.document();
 					let mo = create_mathml_element(&doc, "mo");
 					let mn = create_mathml_element(&doc, "mn");
